@@ -17,7 +17,8 @@ _TD = ["f", "i", "b", "T", "D", "td"]
 KINDS = {"all": list("fib"), "any": list("fib"), "count": _TD, "count_unique": _TD, "first": _TD, "last": _TD, "nth": _TD,
          "min": _TD, "max": _TD, "mode": _TD, "mean": list("fi"), "median": list("fi"), "quantile": list("fi"), "std": list("fi"), "var": list("fi"),
          "sum": list("fib")}
-LAYOUTS = {0: [[]], 1: [[0]], 2: [[0, 0], [0, 1], [1, 0]], 3: [[0, 0, 0], [0, 1, 0], [1, 0, 0], [0, 1, 1], [2, 0, 1]]}
+LAYOUTS = {0: [[]], 1: [[0]], 2: [[0, 0], [0, 1], [1, 0]], 3: [[0, 0, 0], [0, 1, 0], [1, 0, 0], [0, 1, 1], [2, 0, 1]],
+           4: [[0, 0, 0, 0], [0, 1, 0, 1]]}
 
 def ite_cell(c, a, b, kind):
     if kind in ("T", "U"):
